@@ -192,6 +192,11 @@ theorem mem_takeWhile_imp' (p : Char → Bool) : ∀ (l : List Char) (x : Char),
       · exact ih x h
     · simp [ha] at h
 
+theorem length_takeWhile_le' (p : Char → Bool) (l : List Char) : (l.takeWhile p).length ≤ l.length := by
+  induction l with
+  | nil => simp
+  | cons a t ih => by_cases h : p a = true <;> simp [h]; omega
+
 theorem takeWhile_all (p : Char → Bool) (l : List Char) (h : l.dropWhile p = []) : l.takeWhile p = l := by
   have := List.takeWhile_append_dropWhile (p := p) (l := l)
   rw [h, List.append_nil] at this; exact this
